@@ -127,22 +127,12 @@ def pr(a, st=None, parent=0, side=None):
     return out
 
 
-def document(name, run, elements, reciprocal=None):
-    """elements: list of dict(kind=stock|flow|aux, name, eqn=str, inflows=[], outflows=[], non_negative=bool,
-    gf=dict(xscale=(min,max), ypts=[..]) | dict(xpts=[..], ypts=[..]))"""
-    out = ['<?xml version="1.0" encoding="utf-8"?>',
-           '<xmile version="1.0" xmlns="http://docs.oasis-open.org/xmile/ns/XMILE/v1.0" xmlns:isee="http://iseesystems.com/XMILE">',
-           '<header><smile version="1.0" namespace="std, isee"/><name>%s</name><uuid>00000000-0000-0000-0000-000000000000</uuid>'
-           '<vendor>verif</vendor><product version="1.0" lang="en">verif</product></header>' % escape(name),
-           '<sim_specs method="Euler" time_units="Months">',
-           '<start>%s</start><stop>%s</stop>' % (run["start"], run["stop"])]
-    if reciprocal:
-        out.append('<dt reciprocal="true">%d</dt>' % reciprocal)
-    else:
-        out.append('<dt>%s</dt>' % run["dt"])
-    out.append('</sim_specs><model><variables>')
+def _variables(elements, out):
     for e in elements:
         k = e["kind"]
+        if k == "module":
+            out.append('<module name="%s"/>' % escape(e["name"], {'"': "&quot;"}))
+            continue
         out.append('<%s name="%s">' % (k, escape(e["name"], {'"': "&quot;"})))
         out.append('<eqn>%s</eqn>' % escape(e["eqn"]))
         for f in e.get("inflows", []):
@@ -164,7 +154,30 @@ def document(name, run, elements, reciprocal=None):
             out.append('<ypts>%s</ypts>' % ",".join(str(y) for y in gf["ypts"]))
             out.append('</gf>')
         out.append('</%s>' % k)
-    out.append('</variables></model></xmile>')
+
+
+def document(name, run, elements, reciprocal=None, modules=None):
+    """elements: list of dict(kind=stock|flow|aux, name, eqn=str, inflows=[], outflows=[], non_negative=bool,
+    gf=dict(xscale=(min,max), ypts=[..]) | dict(xpts=[..], ypts=[..]))
+    modules: optional {module name: elements}: further <model name=..> sections; the root model declares them."""
+    out = ['<?xml version="1.0" encoding="utf-8"?>',
+           '<xmile version="1.0" xmlns="http://docs.oasis-open.org/xmile/ns/XMILE/v1.0" xmlns:isee="http://iseesystems.com/XMILE">',
+           '<header><smile version="1.0" namespace="std, isee"/><name>%s</name><uuid>00000000-0000-0000-0000-000000000000</uuid>'
+           '<vendor>verif</vendor><product version="1.0" lang="en">verif</product></header>' % escape(name),
+           '<sim_specs method="Euler" time_units="Months">',
+           '<start>%s</start><stop>%s</stop>' % (run["start"], run["stop"])]
+    if reciprocal:
+        out.append('<dt reciprocal="true">%d</dt>' % reciprocal)
+    else:
+        out.append('<dt>%s</dt>' % run["dt"])
+    out.append('</sim_specs><model><variables>')
+    _variables([dict(kind="module", name=mn) for mn in (modules or {})] + list(elements), out)
+    out.append('</variables></model>')
+    for mn, els in (modules or {}).items():
+        out.append('<model name="%s"><variables>' % escape(mn, {'"': "&quot;"}))
+        _variables(els, out)
+        out.append('</variables></model>')
+    out.append('</xmile>')
     return "\n".join(out)
 
 
